@@ -70,7 +70,7 @@ func (c *Ctx) CheckSemantics(prop string) {
 		return -1
 	}
 	// loops
-	var outer, inner *Loop
+	var outer *Loop
 	var pathsVal ssa.Value
 	for _, l := range FindLoops(F) {
 		if !l.FullRange || l.BoundLen == nil {
@@ -113,80 +113,112 @@ func (c *Ctx) CheckSemantics(prop string) {
 		c.R.Anchor(rule, "roles:path", fmt.Sprintf("cannot infer the roles of the permission entry fields: wallet=%q account=%q operations=%q", roles[0], roles[1], opsField))
 		return
 	}
-	for _, l := range FindLoops(F) {
-		if !l.FullRange || l.BoundLen == nil || l == outer {
-			continue
-		}
-		owner, f, base := an.FieldOf(l.BoundLen)
-		if owner != nil && f == opsField && isPathElem(base) && outer.Body[l.Header] {
-			inner = l
+	// the scan of the matching entry's items: a forward full-range loop over entry.operations, in Check itself or in a helper
+	// that is handed the entry (as receiver or argument) from inside the entry scan
+	type opsLoop struct {
+		l     *Loop
+		fn    *ssa.Function
+		entry ssa.Value // the value denoting the entry in fn
+	}
+	var itemScans []opsLoop
+	findOps := func(fn *ssa.Function, isEntry func(ssa.Value) bool) {
+		for _, l := range FindLoops(fn) {
+			if !l.FullRange || l.BoundLen == nil || l == outer {
+				continue
+			}
+			owner, f, base := an.FieldOf(l.BoundLen)
+			if owner != nil && f == opsField && isEntry(base) && (fn != F || outer.Body[l.Header]) {
+				itemScans = append(itemScans, opsLoop{l, fn, base})
+			}
 		}
 	}
-	if inner == nil {
-		c.R.Fail(rule, Fn(F)+":operations", c.P.FuncPos(F), "no forward full-range loop over the operations of the matching entry found", "for i := range path.operations", nil)
+	findOps(F, isPathElem)
+	for _, ci := range Calls(F, func(ci ssa.CallInstruction) bool {
+		g := ci.Common().StaticCallee()
+		return g != nil && prog.InModule(g) && g.Blocks != nil && !ci.Common().IsInvoke() && outer.Body[ci.Block()]
+	}) {
+		g := ci.Common().StaticCallee()
+		for ai, a := range ci.Common().Args {
+			if ai < len(g.Params) && isPathElem(a) {
+				hp := g.Params[ai]
+				findOps(g, func(v ssa.Value) bool { return v == ssa.Value(hp) })
+			}
+		}
+	}
+	if len(itemScans) != 1 {
+		c.R.Fail(rule, Fn(F)+":operations", c.P.FuncPos(F), fmt.Sprintf("expected exactly one forward full-range loop over the operations of the matching entry, found %d", len(itemScans)), "for i := range path.operations", nil)
 		return
 	}
-	isOpElem := func(v ssa.Value) bool {
-		u, ok := v.(*ssa.UnOp)
+	inner := itemScans[0]
+	// item: the element of entry.operations at the item scan's own index (values of helper frames resolved through sub)
+	isOpElem := func(v ssa.Value, sub Subst) bool {
+		u, ok := sub.Res(v).(*ssa.UnOp)
 		if !ok {
 			return false
 		}
 		ia, ok := u.X.(*ssa.IndexAddr)
-		if !ok || ia.Index != inner.Idx {
+		if !ok || ia.Index != inner.l.Idx {
 			return false
 		}
 		owner, f, base := an.FieldOf(ia.X)
-		return owner != nil && f == opsField && isPathElem(base)
+		return owner != nil && f == opsField && (isPathElem(sub.Res(base)) || (inner.fn != F && base == inner.entry))
 	}
-	isAnti := func(v ssa.Value) bool {
+	isOper := func(v ssa.Value, sub Subst) bool { return an.StripConv(sub.Res(v)) == oper }
+	isAnti := func(v ssa.Value, sub Subst) bool {
+		v = sub.Res(v)
 		for _, sh := range evalString(v, 0) {
 			if len(sh) != 2 || sh[0].Const != "~" {
 				return false
 			}
 		}
-		call, ok := v.(*ssa.Call)
-		if !ok {
-			return false
+		switch x := v.(type) {
+		case *ssa.Call:
+			if len(x.Call.Args) != 2 {
+				return false
+			}
+			args := varargValues(x.Call.Args[1])
+			return len(args) == 1 && isOper(args[0], sub)
+		case *ssa.BinOp:
+			k, ok := x.X.(*ssa.Const)
+			return ok && an.Term(k) == `"~"` && isOper(x.Y, sub)
 		}
-		args := varargValues(call.Call.Args[1])
-		return len(args) == 1 && an.StripConv(args[0]) == oper
+		return false
 	}
 	isConstStr := func(v ssa.Value, s string) bool { return an.Term(v) == fmt.Sprintf("%q", s) }
-	foldAtom := func(a *an.Atom, pos bool, test func(other ssa.Value) bool) bool {
+	foldAtom := func(a *an.Atom, sub Subst, pos bool, test func(other ssa.Value) bool) bool {
 		if a == nil || (a.Op == "true") != pos || (a.Op != "true" && a.Op != "false") {
 			return false
 		}
-		call, ok := isCallToName(a.LV, "strings.EqualFold")
+		call, ok := isCallToName(sub.Res(a.LV), "strings.EqualFold")
 		if !ok {
 			return false
 		}
 		x, y := call.Call.Args[0], call.Call.Args[1]
-		return (isOpElem(x) && test(y)) || (isOpElem(y) && test(x))
+		return (isOpElem(x, sub) && test(y)) || (isOpElem(y, sub) && test(x))
 	}
-	matchAtom := func(a *an.Atom, which int) bool {
+	matchAtom := func(a *an.Atom, sub Subst, which int) bool {
 		if a == nil || a.Op != "true" {
 			return false
 		}
-		call, ok := isCallToName(a.LV, "(*regexp.Regexp).MatchString")
+		call, ok := isCallToName(sub.Res(a.LV), "(*regexp.Regexp).MatchString")
 		if !ok {
 			return false
 		}
 		owner, f, base := an.FieldOf(call.Call.Args[0])
-		return owner != nil && f == roles[which] && isPathElem(base) && nameOf(call.Call.Args[1]) == which
+		return owner != nil && f == roles[which] && isPathElem(sub.Res(base)) && nameOf(sub.Res(call.Call.Args[1])) == which
 	}
 	type clause struct {
 		name string
 		from func() an.Point
-		acc  func(a *an.Atom) bool
+		acc  AtomPred
 	}
 	entry := func() an.Point { return an.Entry(F) }
 	outerBody := func() an.Point { return an.Point{Block: outer.BodyFirst, Idx: 0} }
-	innerBody := func() an.Point { return an.Point{Block: inner.BodyFirst, Idx: 0} }
 	clauses := []clause{
-		{"credentials present", entry, func(a *an.Atom) bool {
+		{"credentials present", entry, func(a *an.Atom, sub Subst) bool {
 			return a != nil && a.Op == "!=" && ((a.LV == creds && isNilConst(a.RV)) || (a.RV == creds && isNilConst(a.LV)))
 		}},
-		{"client name non-empty", entry, func(a *an.Atom) bool {
+		{"client name non-empty", entry, func(a *an.Atom, sub Subst) bool {
 			if a == nil || a.Op != "!=" {
 				return false
 			}
@@ -198,21 +230,23 @@ func (c *Ctx) CheckSemantics(prop string) {
 			}
 			return false
 		}},
-		{"client has entries", entry, func(a *an.Atom) bool {
+		{"client has entries", entry, func(a *an.Atom, sub Subst) bool {
 			if a == nil || a.Op != "true" {
 				return false
 			}
 			ex, ok := a.LV.(*ssa.Extract)
 			return ok && ex.Index == 1 && ex.Tuple == pathsVal.(*ssa.Extract).Tuple
 		}},
-		{"wallet pattern matches the wallet name", outerBody, func(a *an.Atom) bool { return matchAtom(a, 0) }},
-		{"account pattern matches the account name", outerBody, func(a *an.Atom) bool { return matchAtom(a, 1) }},
-		{"this item is not 'none'", innerBody, func(a *an.Atom) bool {
-			return foldAtom(a, false, func(o ssa.Value) bool { return isConstStr(o, "none") })
+		{"wallet pattern matches the wallet name", outerBody, func(a *an.Atom, sub Subst) bool { return matchAtom(a, sub, 0) }},
+		{"account pattern matches the account name", outerBody, func(a *an.Atom, sub Subst) bool { return matchAtom(a, sub, 1) }},
+		{"this item is not 'none'", outerBody, func(a *an.Atom, sub Subst) bool {
+			return foldAtom(a, sub, false, func(o ssa.Value) bool { return isConstStr(o, "none") })
 		}},
-		{"this item is not '~operation'", innerBody, func(a *an.Atom) bool { return foldAtom(a, false, isAnti) }},
-		{"this item is 'all' or the operation", innerBody, func(a *an.Atom) bool {
-			return foldAtom(a, true, func(o ssa.Value) bool { return isConstStr(o, "all") || an.StripConv(o) == oper })
+		{"this item is not '~operation'", outerBody, func(a *an.Atom, sub Subst) bool {
+			return foldAtom(a, sub, false, func(o ssa.Value) bool { return isAnti(o, sub) })
+		}},
+		{"this item is 'all' or the operation", outerBody, func(a *an.Atom, sub Subst) bool {
+			return foldAtom(a, sub, true, func(o ssa.Value) bool { return isConstStr(o, "all") || isOper(o, sub) })
 		}},
 	}
 	ntrue := 0
@@ -231,8 +265,8 @@ func (c *Ctx) CheckSemantics(prop string) {
 		for _, cl := range clauses {
 			cl := cl
 			x, path := an.Cut(an.CutQuery{From: cl.from(), Target: func(i ssa.Instruction) bool { return i == target },
-				AcceptEdge: func(b *ssa.BasicBlock, i int, a *an.Atom) bool { return cl.acc(a) }})
-			// when starting inside a loop, the target must be reachable from there at all (else the clause is vacuous)
+				AcceptEdge: c.WithSummaries(cl.acc)})
+			// when starting inside the entry scan, the target must be reachable from there at all (else the clause is vacuous)
 			if cl.from().Block != F.Blocks[0] && !an.Reachable(cl.from(), target) {
 				c.R.Fail(rule, Fn(F)+":"+cl.name, c.Pos(ret), "permission is granted outside the scan of the matching entry's items", "grant only inside the item scan", nil)
 				continue
@@ -245,36 +279,23 @@ func (c *Ctx) CheckSemantics(prop string) {
 		}
 	}
 	c.R.Floor(rule, "'allowed' returns of Check", ntrue, 1)
-	// refusals inside the item scan only for a deny item (so an entry whose first relevant item allows is not refused)
+	// refusals inside the entry scan only for a deny item (so an entry whose first relevant item allows is not refused)
 	for _, ret := range an.Returns(F) {
-		if !inner.Body[ret.Block()] && !outer.Body[ret.Block()] {
-			continue
-		}
-		if !outer.InBodyProper(ret.Block()) && !reachesFromBody(inner, ret) {
-			continue
-		}
 		if an.Term(an.Result(ret, 0)) != "false" {
 			continue
 		}
-		if !an.Reachable(innerBody(), ret) {
-			// a refusal inside the entry scan but outside the item scan
-			if an.Reachable(outerBody(), ret) && outer.Body[ret.Block()] && ret.Block() != outer.Exit && !isAfterLoop(outer, ret) {
-				c.R.Fail(rule, Fn(F)+":refusal", c.Pos(ret), "a request is refused while scanning entries for a reason other than a deny item", "refusals inside the scan only for 'none' / '~operation'", nil)
-			}
-			continue
+		if !an.Reachable(outerBody(), ret) || isAfterLoop(outer, ret) {
+			continue // before the scan, or the default after it
 		}
 		target := ssa.Instruction(ret)
-		if isAfterLoop(outer, ret) {
-			continue
-		}
-		x, path := an.Cut(an.CutQuery{From: innerBody(), Target: func(i ssa.Instruction) bool { return i == target },
-			AcceptEdge: func(b *ssa.BasicBlock, i int, a *an.Atom) bool {
-				return foldAtom(a, true, func(o ssa.Value) bool { return isConstStr(o, "none") }) || foldAtom(a, true, isAnti)
-			}})
+		x, path := an.Cut(an.CutQuery{From: outerBody(), Target: func(i ssa.Instruction) bool { return i == target },
+			AcceptEdge: c.WithSummaries(func(a *an.Atom, sub Subst) bool {
+				return foldAtom(a, sub, true, func(o ssa.Value) bool { return isConstStr(o, "none") }) || foldAtom(a, sub, true, func(o ssa.Value) bool { return isAnti(o, sub) })
+			})})
 		if x != nil {
-			c.R.Fail(rule, Fn(F)+":refusal", c.Pos(ret), "a matching entry can be refused although the item is neither 'none' nor '~operation'", "refusals inside the item scan only below a deny item", an.PathString(c.Pos, path))
+			c.R.Fail(rule, Fn(F)+":refusal", c.Pos(ret), "a matching entry can be refused although the item is neither 'none' nor '~operation'", "refusals inside the scan only below a deny item", an.PathString(c.Pos, path))
 		} else {
-			c.R.OK(rule, Fn(F)+":refusal", c.Pos(ret), "refusal inside the item scan only below ['none'] or ['~operation']")
+			c.R.OK(rule, Fn(F)+":refusal", c.Pos(ret), "refusal inside the scan only below ['none'] or ['~operation']")
 		}
 	}
 }
